@@ -469,7 +469,7 @@ def main(argv):
     sharded = a.tier == "thorough" and getattr(mod, "SHARDED", True)
     qshards = int(os.environ.get("VERIF_QUICK_SHARDS", getattr(mod, "QUICK_SHARDS", 1)))
     if sharded:
-        run_sharded(a.prop, a.tier, seed, ctx, getattr(mod, "THOROUGH_TIMEOUT", 3000))
+        run_sharded(a.prop, a.tier, seed, ctx, getattr(mod, "THOROUGH_TIMEOUT", 9000))
     elif a.tier == "quick" and qshards > 1:
         # the quick tier may use several cores too: same workload definition, split over worker processes
         run_sharded(a.prop, a.tier, seed, ctx, getattr(mod, "QUICK_TIMEOUT", 900), nshards=qshards)
